@@ -125,10 +125,12 @@ fn main() {
         finish(&ctx, Coverage::default());
     }
     let quick = ctx.quick();
+    let mut layer_secs: Vec<(&str, f64)> = vec![];
     // (i) bounds over the product
     let cases = space(quick, &sets);
     let s1 = cases.par_iter().map(|c| { let mut st = Stats::default(); judge(&ctx, c, &sets, &mut st); st }).reduce(Stats::default, Stats::merge);
 
+    layer_secs.push(("i", ctx.start.elapsed().as_secs_f64()));
     // (ii) distance chains in commit post-mode: strictly increasing where the preset prints the post counter
     // (also without --post-mode, where the first matching rule of the set says commit mode)
     let rule_mode_is_commit = |branch: usize, rules: usize| -> bool {
@@ -156,6 +158,7 @@ fn main() {
         st
     }).reduce(Stats::default, Stats::merge);
 
+    layer_secs.push(("ii", ctx.start.elapsed().as_secs_f64()));
     // (iii) a clean checkout at a pre-release tag of the shapes flow produces yields that tag unchanged
     let s3 = cases.par_iter().filter(|c| c.dirty_flag != 1 && c.mode != Some("tag") && matches!(c.preset, "standard" | "standard-no-context" | "standard-base-prerelease-post" | "standard-base-prerelease")).map(|c| {
         let mut st = Stats::default();
@@ -199,9 +202,11 @@ fn main() {
         st
     }).reduce(Stats::default, Stats::merge);
 
+    layer_secs.push(("iii+v", ctx.start.elapsed().as_secs_f64()));
     // (iv) real git histories: bounds against the model's nearest final-release tag, and first-parent commit steps
     let s_git = git_layer(&ctx, quick);
 
+    layer_secs.push(("iv-git", ctx.start.elapsed().as_secs_f64()));
     // process conformance slice
     let slice: Vec<&Case> = cases.iter().step_by((cases.len() / 100).max(1)).collect();
     let bad: Vec<(String, String)> = slice.par_iter().filter_map(|c| { let args = argv(c, &sets); let r = zv::run_cli(&args, None); let o = zv::run_bin(&args, None, &[], None); zv::conforms(&r, &o).err().map(|e| (args.join(" "), e)) }).collect();
@@ -219,6 +224,7 @@ fn main() {
     cov.traces_validated = cov.evaluations;
     cov.distinct_nontrivial = all.get("active_cases");
     cov.rule = format!("(i) full product final-release tags {:?} x {} branches x distance x dirty flag x post-mode x {} rule sets x hash lengths x --pre-release-label x --post x 11 standard presets x 2 formats through run_flow_pipeline, each output compared by independent comparators (R-SV precedence / standard PEP 440 order) with X.Y.Z and X.Y.(Z+1); (ii) distance chains 0..6 in commit mode for every (tag, branch, rule set, preset, format): strictly increasing where the preset prints post; (iii) every dev-less pre-release output fed back as --tag-version --clean must be reproduced, and (v) used as base tag, 1..3 further commits on the same branch in commit post-mode must give strictly increasing versions above it and below X.Y.(Z+1). (iv) real git: every placement of <= 2 final-release tags (and of one release tagged three times as v1.0.0 / v1.0 / v1) on the commits of every explored DAG shape (C02's shape BFS) x HEAD at every branch tip x work-tree states, `zerv flow -C` in both formats bounded by the model's nearest tag, plus a commit step on the checked-out branch that must increase the version. non-trivial = active (dirty or ahead) runs", TAGS.iter().map(|t| t.0).collect::<Vec<_>>(), BRANCHES.len(), sets.len());
+    cov.set("cumulative_seconds_after_layer", json!(layer_secs.iter().map(|(n, t)| json!({"layer": n, "t": (t * 10.0).round() / 10.0})).collect::<Vec<_>>()));
     cov.exhaustive = true;
     cov.samples = vec![json!(argv(&cases[cases.len() / 3], &sets)), json!(argv(&cases[cases.len() - 5], &sets))];
     cov.set("clause_counts", all.to_json());
@@ -252,19 +258,28 @@ fn git_layer(ctx: &Ctx, quick: bool) -> Stats {
     let mut seen = std::collections::BTreeSet::new();
     let shapes: Vec<&Shape> = all_shapes.iter().filter(|s| seen.insert((s.parents.clone(), s.branches.clone()))).filter(|s| !quick || s.parents.len() <= 3 || s.has_merge()).collect();
     let names = [("v1.0.0", [1u64, 0, 0]), ("v2.0.0", [2, 0, 0])];
-    let st = shapes.par_iter().enumerate().map(|(si, shape)| {
-        let mut st = Stats::default();
+    // work units: (shape, date mode, chunk of tag placements) - each unit owns one materialised repository, so that the
+    // few large shapes do not serialise the layer
+    struct Unit<'a> { si: usize, shape: &'a Shape, mi: usize, mode: DateMode, labelings: Vec<Vec<Tag>> }
+    let mut units: Vec<Unit> = vec![];
+    for (si, shape) in shapes.iter().enumerate() {
         let n = shape.parents.len();
         let modes: Vec<DateMode> = if shape.has_merge() { vec![DateMode::Increasing, DateMode::ZigZag] } else { vec![DateMode::Increasing] };
-        for (mi, mode) in modes.iter().enumerate() {
-            let mut repo = Repo::create(&root, &format!("f{si}m{mi}"), shape, &gitx::dates(n, *mode));
-            // placements: v1.0.0 alone on any commit; v1.0.0 and v2.0.0 on any pair of commits
-            let mut labelings: Vec<Vec<Tag>> = (0..n).map(|c| vec![Tag { name: "v1.0.0".into(), target: c, annotated: c % 2 == 1 }]).collect();
-            for a in 0..n { for b in 0..n { labelings.push(vec![Tag { name: "v1.0.0".into(), target: a, annotated: false }, Tag { name: "v2.0.0".into(), target: b, annotated: true }]); } }
-            // the release commit also carries shorter spellings of the same version (floating tags v1 / v1.0): equal under
-            // PEP 440, so whichever is taken as base, the result must still be measured from 1.0.0
-            for c in 0..n { labelings.push(vec![Tag { name: "v1.0.0".into(), target: c, annotated: false }, Tag { name: "v1.0".into(), target: c, annotated: false }, Tag { name: "v1".into(), target: c, annotated: c % 2 == 0 }]); }
-            for tags in &labelings {
+        // placements: v1.0.0 alone on any commit; v1.0.0 and v2.0.0 on any pair of commits
+        let mut labelings: Vec<Vec<Tag>> = (0..n).map(|c| vec![Tag { name: "v1.0.0".into(), target: c, annotated: c % 2 == 1 }]).collect();
+        for a in 0..n { for b in 0..n { labelings.push(vec![Tag { name: "v1.0.0".into(), target: a, annotated: false }, Tag { name: "v2.0.0".into(), target: b, annotated: true }]); } }
+        // the release commit also carries shorter spellings of the same version (floating tags v1 / v1.0): equal under
+        // PEP 440, so whichever is taken as base, the result must still be measured from 1.0.0
+        for c in 0..n { labelings.push(vec![Tag { name: "v1.0.0".into(), target: c, annotated: false }, Tag { name: "v1.0".into(), target: c, annotated: false }, Tag { name: "v1".into(), target: c, annotated: c % 2 == 0 }]); }
+        for (mi, mode) in modes.iter().enumerate() { for chunk in labelings.chunks(4) { units.push(Unit { si, shape, mi, mode: *mode, labelings: chunk.to_vec() }); } }
+    }
+    let st = units.par_iter().enumerate().map(|(ui, u)| {
+        let mut st = Stats::default();
+        let (si, shape, mi, mode, labelings) = (u.si, u.shape, u.mi, &u.mode, &u.labelings);
+        let n = shape.parents.len();
+        {
+            let mut repo = Repo::create(&root, &format!("f{si}m{mi}u{ui}"), shape, &gitx::dates(n, *mode));
+            for tags in labelings.iter() {
                 repo.set_tags(tags);
                 for (b, &tip) in &shape.branches {
                     let head = Head::Branch(b.clone());
